@@ -76,6 +76,7 @@ type verifC42World struct {
 	strobes    int
 	maxOps     int
 	midScans   int // emulated polling scans in the middle of a transition
+	midScanned bool
 }
 
 var verifC42 *verifC42World
@@ -159,6 +160,7 @@ func verifC42CoreTransition(
 		vLabel("")
 		if mid {
 			w.midScans--
+			w.midScanned = true
 			vCover("polling scan in the middle of a transition")
 			e.lockScanLock(context.Background())
 			e.accelerate = false
@@ -222,6 +224,13 @@ func (w *verifC42World) judge() {
 		return
 	}
 	if !w.haveBelief {
+		return
+	}
+	if w.midScanned {
+		// The scan emulated in the middle of a transition is not a complete
+		// polling iteration (it does not compare and notify), so notifications
+		// are not judged on these paths; the stale-snapshot assertion is.
+		vCover("notification not judged after an emulated mid-transition scan")
 		return
 	}
 	vCover("polling interval judged")
